@@ -374,7 +374,14 @@ func R08(group string) Rule {
 				return core.PkgPathOf(f) != core.PkgBttest || core.FuncName(f) == "appendOrReplaceCell" || core.FuncName(f) == "applyMutations"
 			}), core.PkgBttest, "appendOrReplaceCell")
 			if len(ins) == 0 {
-				c.Unknown("R08", "ReadModifyWriteRow/insert", fn.Pos(), "no appendOrReplaceCell call reachable from ReadModifyWriteRow")
+				// the anchor helper still exists but this RPC no longer goes through it: the new cell is put
+				// into the column by other means (a plain prepend / append), which is exactly what the helper
+				// exists to prevent — a second cell with the timestamp of an existing one
+				if ap := P.Func(core.PkgBttest, "appendOrReplaceCell"); ap != nil && ap.Blocks != nil {
+					c.Bad("R08", "ReadModifyWriteRow/insert", fn.Pos(), "ReadModifyWriteRow no longer inserts its new cell through appendOrReplaceCell (the writer that replaces a cell of equal timestamp instead of adding a second one): a column repeated within one request, two requests in the same millisecond, or a future-dated newest cell leave two cells with one timestamp")
+				} else {
+					c.Unknown("R08", "ReadModifyWriteRow/insert", fn.Pos(), "no appendOrReplaceCell call reachable from ReadModifyWriteRow")
+				}
 			}
 			rmwWithin := setOf(P.Scope(fn, nil))
 			for i, e := range ins {
